@@ -289,13 +289,33 @@ def _show(v):
     return '<%s>' % (v[1],)
 
 
+def _is_minus_one(e):
+    return isinstance(e, ast.UnaryOp) and isinstance(e.op, ast.USub) and isinstance(e.operand, ast.Constant) and e.operand.value == 1
+
+
+def _drops_last(st):
+    """name of the list a statement removes the last element from: ``x.pop()`` / ``x.pop(-1)`` / ``del x[-1]``"""
+    if isinstance(st, ast.Expr) and isinstance(st.value, ast.Call) and isinstance(st.value.func, ast.Attribute) and st.value.func.attr == 'pop' and \
+            isinstance(st.value.func.value, ast.Name) and not st.value.keywords and \
+            (not st.value.args or (len(st.value.args) == 1 and _is_minus_one(st.value.args[0]))):
+        return st.value.func.value.id
+    if isinstance(st, ast.Delete) and len(st.targets) == 1 and isinstance(st.targets[0], ast.Subscript) and isinstance(st.targets[0].value, ast.Name) and \
+            _is_minus_one(st.targets[0].slice):
+        return st.targets[0].value.id
+    return None
+
+
 class _SymExec(object):
     """Path-sensitive symbolic evaluation of a function body under one assumption about the slash mode.  Tracked
     values are immutable (strings, booleans, compiled regexes, tuples of them), so only re-binding matters:
     loops and statements that are not interpreted forget every name they bind.  Values:
-      ('s', tokens)   string; tokens: ('lit', text) | ('join', separator tokens, list expression) | ('sym', text)
+      ('s', tokens)   string; tokens: ('lit', text) | ('join', separator tokens, list expression[, (list, trims)]) | ('sym', text)
       ('b', bool)     known truth value        ('re', value, plain)   re.compile(value), plain = no flags
-      ('t', values)   tuple                    ('?', text)            unknown"""
+      ('t', values)   tuple                    ('?', text)            unknown
+      ('L', list, trims)   the list object created by the display ``list`` (identified by its node), seen without its last
+                      ``trims`` elements (``x[:-1]`` is a new view, ``x.pop()`` / ``del x[-1]`` changes the object for every name
+                      that holds it); what a loop puts into the list is not tracked here
+    Statements listed in ``watch`` leave a trace ``env['$seen'] = ((stmt, env at the statement), ...)`` on the paths that run them."""
 
     def __init__(self, repo, fi, mode_param, strict_value, strict):
         self.repo, self.fi, self.mod = repo, fi, fi.mod
@@ -309,6 +329,7 @@ class _SymExec(object):
             if isinstance(x, ast.Nonlocal):
                 raise AnalysisError('%s: nonlocal re-binding is not followed' % fi.qualname)
         self.budget = 4000
+        self.watch = ()
 
     # -- expressions
     def _is_strict_const(self, e):
@@ -361,6 +382,16 @@ class _SymExec(object):
             return ('?', short(e, 40))
         if isinstance(e, ast.Tuple):
             return ('t', tuple(self.ev(x, env) for x in e.elts))
+        if (isinstance(e, ast.List) and not e.elts) or (isinstance(e, ast.Call) and isinstance(e.func, ast.Name) and e.func.id == 'list' and
+                                                       not e.args and not e.keywords and 'list' not in self.locals):
+            return ('L', id(e), 0)
+        if isinstance(e, ast.Subscript) and isinstance(e.slice, ast.Slice):
+            v = self.ev(e.value, env)
+            sl = e.slice
+            if v[0] == 'L' and sl.lower is None and sl.step is None and isinstance(sl.upper, ast.UnaryOp) and isinstance(sl.upper.op, ast.USub) and \
+                    isinstance(sl.upper.operand, ast.Constant) and sl.upper.operand.value == 1:
+                return ('L', v[1], v[2] + 1)
+            return ('?', short(e, 40))
         if isinstance(e, ast.BinOp) and isinstance(e.op, ast.Add):
             l, r = self.ev(e.left, env), self.ev(e.right, env)
             if l[0] == 's' or r[0] == 's':
@@ -387,6 +418,9 @@ class _SymExec(object):
                 a = e.args[0]
                 base = a.value if isinstance(a, ast.Subscript) and isinstance(a.slice, ast.Slice) else a
                 if _toks(sepv) is not None and isinstance(base, ast.Name):
+                    lv = self.ev(a, env)
+                    if lv[0] == 'L':
+                        return ('s', (('join', _toks(sepv), norm(a), (lv[1], lv[2])),))
                     return ('s', (('join', _toks(sepv), norm(a)),))
                 if _toks(sepv) is not None and isinstance(a, (ast.List, ast.Tuple)) and not any(isinstance(x, ast.Starred) for x in a.elts):
                     parts = []          # ''.join(['^', body, tail, '$'])
@@ -497,6 +531,16 @@ class _SymExec(object):
         walrus = set(x.target.id for x in ast.walk(st) if isinstance(x, ast.NamedExpr) and isinstance(x.target, ast.Name))
         if walrus:
             env = self._forget(env, walrus)
+        if any(st is w for w in self.watch):
+            env = dict(env)
+            env['$seen'] = env.get('$seen', ()) + ((st, dict(env)),)
+        dropped = _drops_last(st)
+        if dropped is not None and env.get(dropped, ('?',))[0] == 'L':
+            # x.pop() / del x[-1]: the object loses its last element, under every name that holds it
+            obj = env[dropped]
+            env = dict((k, ('L', v[1], v[2] + 1) if isinstance(v, tuple) and v[:2] == obj[:2] and not k.startswith('$') else v) for k, v in env.items())
+            yield ('fall', None, env)
+            return
         if isinstance(st, ast.Assign) or (isinstance(st, ast.AnnAssign) and st.value is not None):
             targets = st.targets if isinstance(st, ast.Assign) else [st.target]
             val = self.ev(st.value, env)
@@ -604,9 +648,12 @@ def check_match_path_no_raise(rep, rule):
         # what is iterated, seen through single-assignment temporaries (pairs = self.converters.items())
         if isinstance(n, (ast.For, ast.comprehension)) and 'converters' in norm(_inline(mp, n.iter)):
             conv_vars |= set(x.id for x in ast.walk(n.target) if isinstance(x, ast.Name))
-    conv_calls = [c for c in ast.walk(mp.node) if isinstance(c, ast.Call) and
-                  ((isinstance(c.func, ast.Name) and c.func.id in conv_vars) or
-                   (isinstance(c.func, ast.Subscript) and 'converters' in norm(c.func.value)))]
+    def is_converter(f):
+        # a variable of the loop over the converters, a converter looked up in place, or a local naming one of them
+        if isinstance(f, ast.Name) and f.id not in conv_vars:
+            f = _inline(mp, f, stable=tuple(conv_vars))
+        return (isinstance(f, ast.Name) and f.id in conv_vars) or (isinstance(f, ast.Subscript) and 'converters' in norm(f.value))
+    conv_calls = [c for c in ast.walk(mp.node) if isinstance(c, ast.Call) and is_converter(c.func)]
     if not conv_calls:
         raise AnalysisError('match_path: converter call not found')
     for c in conv_calls:
@@ -1539,6 +1586,307 @@ def _rule_e_bindings(rep, R, convs, pats):
                         ['key %s <- %s' % (short(key, 30), 'group %r' % g if g else 'not a group') for key, g in keys if g != 'name']), route, cp.node)
 
 
+# ---- R05.g ------------------------------------------------------------------------------------------
+
+def _is_empty_display(e, kind):
+    if kind == 'list':
+        return (isinstance(e, ast.List) and not e.elts) or (isinstance(e, ast.Call) and norm(e) == 'list()')
+    return (isinstance(e, ast.Dict) and not e.keys) or (isinstance(e, ast.Call) and norm(e) == 'dict()')
+
+
+def _rule_g_segments(rep, R):
+    """The list handed to ``sep.join`` holds, in order, one element per literal part of the pattern -- the part itself -- with
+    the segment of every binding glued to the element before it; outside strict mode a trailing empty element (pattern
+    ending in '/') is dropped, in strict mode nothing is.  List and converter map are created by the call that fills them."""
+    repo = rep.repo
+    route, cp, ccfg = R.route, R.cp, R.cfg
+    if not isinstance(R.loop, ast.For) or not isinstance(R.loop.target, ast.Name):
+        raise AnalysisError('_compile_path_pattern: the loop over the parts of the pattern was not found')
+    part = R.loop.target.id
+    params = _all_params(cp)
+    in_loop = set(id(x) for x in ast.walk(R.loop))
+    # -- the joined list, under all its names
+    joins = [c for c in walk_body(cp.node) if isinstance(c, ast.Call) and isinstance(c.func, ast.Attribute) and c.func.attr == 'join' and len(c.args) == 1 and
+             not c.keywords and isinstance(c.args[0].value if isinstance(c.args[0], ast.Subscript) else c.args[0], ast.Name) and
+             not (isinstance(c.func.value, ast.Constant) and c.func.value.value == '')]
+    if not joins:
+        raise AnalysisError('_compile_path_pattern: the join of the processed segments was not found')
+    names, todo = set(), [(c.args[0].value if isinstance(c.args[0], ast.Subscript) else c.args[0]).id for c in joins]
+    inits, foreign = [], []
+    while todo:
+        n = todo.pop()
+        if n in names:
+            continue
+        names.add(n)
+        if n in params or _stores(cp.node, n) == 0:
+            foreign.append(n)
+            continue
+        for st, val in _defs(cp, n):
+            base = val.value if isinstance(val, ast.Subscript) and isinstance(val.slice, ast.Slice) else val
+            if val is not None and _is_empty_display(val, 'list'):
+                inits.append(st)
+            elif isinstance(base, ast.Name):
+                todo.append(base.id)
+            else:
+                foreign.append(n)
+    fresh = not foreign and len(inits) == 1 and id(inits[0]) not in in_loop and \
+        ccfg.must_pass(ccfg.nodes_of(inits[0]), ccfg.entry, ccfg.nodes_of(R.loop))
+    rep.check('R05.g', fkey(cp, 'segment list created per call'), fresh, 'the list of processed segments starts empty in every call' if fresh else
+              'the list of processed segments is not an empty list created by this call before the loop (%s): segments of earlier patterns / '
+              'other content end up in the expression' % (', '.join(sorted(set(foreign))) or 'no single empty-list initialisation'), route, inits[0] if inits else cp.node)
+    # -- the parts
+    it = _inline(cp, R.loop.iter)
+    ok = norm(it) == "%s.split('/')" % R.pvar and not _stores(cp.node, R.pvar) and _stores(cp.node, part) == 1 and not R.loop.orelse
+    rep.check('R05.g', fkey(cp, 'parts of the pattern'), ok, "the loop visits every part of pattern.split('/')" if ok else
+              "the loop does not visit exactly the parts of %s.split('/') (iterates %s)" % (R.pvar, short(R.loop.iter, 50)), route, R.loop)
+    # -- every use of the list
+    is_L = lambda e: isinstance(e, ast.Name) and e.id in names
+    is_last = lambda e: isinstance(e, ast.Subscript) and is_L(e.value) and _is_minus_one(e.slice)
+    appends, glues, trims, others = [], [], [], []
+    for st in stmts_of(cp.node):
+        if isinstance(st, (ast.For, ast.AsyncFor, ast.While, ast.If, ast.Try, ast.With, ast.AsyncWith, ast.FunctionDef, ast.ClassDef)):
+            continue
+        uses = [x for x in ast.walk(st) if is_L(x)]
+        if not uses or st in inits:
+            continue
+        if isinstance(st, ast.Expr) and isinstance(st.value, ast.Call) and isinstance(st.value.func, ast.Attribute) and is_L(st.value.func.value) and \
+                st.value.func.attr == 'append' and len(st.value.args) == 1 and not st.value.keywords and len(uses) == 1:
+            appends.append(st)
+        elif isinstance(st, ast.AugAssign) and isinstance(st.op, ast.Add) and is_last(st.target) and len(uses) == 1:
+            glues.append((st, st.value))
+        elif isinstance(st, ast.Assign) and len(st.targets) == 1 and is_last(st.targets[0]) and isinstance(st.value, ast.BinOp) and isinstance(st.value.op, ast.Add) and \
+                is_last(st.value.left) and norm(st.value.left) == norm(st.targets[0]) and len(uses) == 2:
+            glues.append((st, st.value.right))
+        elif _drops_last(st) in names and len(uses) == 1:
+            trims.append(st)
+        else:
+            # reads: the join, tests of the last element, plain copies / [:-1] views bound to another name of the list
+            rest = list(uses)
+            for x in ast.walk(st):
+                if isinstance(x, ast.Call) and any(x is j for j in joins):
+                    rest = [u for u in rest if not any(u is y for y in ast.walk(x.args[0]))]
+            if isinstance(st, ast.Assign):
+                pairs = [(st.targets[0], st.value)] if len(st.targets) == 1 else []
+                if pairs and isinstance(pairs[0][0], (ast.Tuple, ast.List)) and isinstance(pairs[0][1], (ast.Tuple, ast.List)) and \
+                        len(pairs[0][0].elts) == len(pairs[0][1].elts):
+                    pairs = list(zip(pairs[0][0].elts, pairs[0][1].elts))
+                for t, v in pairs:
+                    base = v.value if isinstance(v, ast.Subscript) and isinstance(v.slice, ast.Slice) else v
+                    if is_L(t) and is_L(base):
+                        rest = [u for u in rest if u is not t and u is not base]
+                        if base is not v:
+                            trims.append(st)
+            if rest:
+                others.append(st)
+    for j in joins:
+        a = j.args[0]
+        if isinstance(a, ast.Subscript):
+            sl = a.slice
+            if isinstance(sl, ast.Slice) and sl.lower is None and sl.step is None and _is_minus_one(sl.upper):
+                trims.append(stmt_of(route, j))
+            else:
+                others.append(stmt_of(route, j))      # some other part of the list is joined
+    # tests ``not L[-1]`` live in if-heads, not in simple statements: any other mention inside a compound head is looked at here
+    for st in stmts_of(cp.node):
+        if isinstance(st, (ast.If, ast.While)):
+            for x in ast.walk(st.test):
+                if is_L(x) and not is_last(route.parents.get(x)):
+                    others.append(st)
+        elif isinstance(st, (ast.For, ast.AsyncFor)):
+            if any(is_L(x) for x in ast.walk(st.iter)) or any(is_L(x) for x in ast.walk(st.target)):
+                others.append(st)
+    ok = not others
+    rep.check('R05.g', fkey(cp, 'segment list only appended to / glued / trimmed'), ok, 'nothing else changes the list of processed segments' if ok else
+              'the list of processed segments is also used in %s: not an append of a literal part, a glued binding segment, the trailing trim or the join' %
+              short(others[0], 60), route, others[0] if others else cp.node)
+    mtext = 'BINDING.match(%s)' % part
+    # facts established inside the loop (the guards before the loop hold for every part alike); tests of the match object are
+    # read through the local that names it
+    loop_facts = lambda st: [(t, pol) for t, pol in conds(cp, st) if id(t) in in_loop]
+    facts = lambda st: [(_inline(cp, t, stable=(part,)), pol) for t, pol in loop_facts(st)]
+    lit = [a for a in appends if id(a) in in_loop]
+    ok = len(lit) == 1 and len(appends) == 1 and norm(_inline(cp, lit[0].value.args[0], stable=(part,))) == part and implies_absent(facts(lit[0]), mtext) and \
+        all(implies_absent([f], mtext) or (isinstance(f[0], ast.BoolOp)) for f in facts(lit[0]))
+    rep.check('R05.g', fkey(cp, 'literal part kept verbatim'), ok, 'a part that is not a binding enters the expression as it is' if ok else
+              'a literal part of the pattern does not enter the list of segments unchanged and unconditionally (%s)' %
+              (short(appends[0], 60) if appends else 'no append found'), route, appends[0] if appends else R.loop)
+    seg = [g for g in glues if id(g[0]) in in_loop]
+    is_seg = lambda v: v is R.fc or (isinstance(v, ast.Name) and _single_def(cp, v.id) is R.fc)
+    ok = len(seg) == 1 and len(glues) == 1 and is_seg(seg[0][1]) and implies_present(facts(seg[0][0]), mtext)
+    rep.check('R05.g', fkey(cp, 'binding segment glued to the element before it'), ok, 'the segment of a binding is added to the element before it' if ok else
+              'the segment built for a binding is not glued (+=) onto the last element of the list (%s)' %
+              (short(glues[0][0], 60) if glues else 'no "segments[-1] += segment" found'), route, glues[0][0] if glues else R.fc)
+    iter_nodes = [n.id for n in ccfg.nodes if n.kind == 'iter' and n.stmt is R.loop]
+    contributes = [x for x in lit] + [g[0] for g in seg]
+    ok = bool(contributes) and ccfg.must_pass(ccfg.nodes_of_all(contributes), iter_nodes, ccfg.nodes_of(R.loop), normal_only=True)
+    rep.check('R05.g', fkey(cp, 'every part contributes'), ok, 'every part of the pattern ends up in the list' if ok else
+              'some parts of the pattern are skipped (an iteration can end without appending / gluing)', route, R.loop)
+    # -- converter map: fresh, every binding recorded
+    vdefs = _defs(cp, R.vcm)
+    ok = R.vcm not in params and len(vdefs) == 1 and vdefs[0][1] is not None and _is_empty_display(vdefs[0][1], 'dict') and id(vdefs[0][0]) not in in_loop and \
+        ccfg.must_pass(ccfg.nodes_of(vdefs[0][0]), ccfg.entry, ccfg.nodes_of(R.loop))
+    rep.check('R05.g', fkey(cp, 'converter map created per call'), ok, 'the converter map starts empty in every call' if ok else
+              'the converter map is not an empty dict created by this call: bindings of earlier patterns stay in it (duplicates are reported '
+              'across routes, routes receive foreign converters)', route, vdefs[0][0] if vdefs else cp.node)
+    stores = [st for st, key in _item_stores(cp, R.vcm)]
+    ok = len(stores) == 1 and bool(lit) and ccfg.must_pass(ccfg.nodes_of_all(stores + lit), iter_nodes, ccfg.nodes_of(R.loop), normal_only=True)
+    rep.check('R05.g', fkey(cp, 'every binding recorded'), ok, 'every binding gets its converter' if ok else
+              'a binding can be compiled into the expression without a converter being recorded for it', route, stores[0] if stores else R.loop)
+    # -- trailing empty element: trimmed exactly outside strict mode, exactly when empty
+    try:
+        strict_value = route.const('S_STRICT')
+    except Exception as e:
+        raise AnalysisError('cannot fold S_STRICT: %s' % e)
+    join_stmts = [stmt_of(route, j) for j in joins]
+    found = {}      # strict? -> set of trims seen in the joined list on returning paths
+    trim_envs = []
+    for strict in (True, False):
+        ex = _SymExec(repo, cp, R.mode, strict_value, strict)
+        ex.watch = list(trims)
+        found[strict] = set()
+        for val, env in ex.returns():
+            rx = val[1][0] if val[0] == 't' and len(val[1]) == 2 else None
+            toks = rx[1][1] if rx is not None and rx[0] == 're' and rx[1][0] == 's' else ()
+            js = [t for t in toks if t[0] == 'join']
+            if len(js) != 1 or len(js[0]) < 4:
+                raise AnalysisError('_compile_path_pattern: the list joined into the compiled expression cannot be followed (%s)' % _show(rx[1] if rx else val))
+            found[strict].add(js[0][3][1])
+            if not strict:
+                trim_envs += [(st, e2) for st, e2 in env.get('$seen', ())]
+    ok = found[True] == {0}
+    rep.check('R05.g', fkey(cp, 'strict mode keeps every element'), ok, 'in strict mode the list is joined as it is' if ok else
+              'in strict mode the last element of the list is dropped before the join: a pattern ending in "/" then also matches the path '
+              'without the slash', route, trims[0] if trims else cp.node)
+    # outside strict mode: both outcomes occur, and the trim stands under exactly one fact the mode does not decide: the last element is empty
+    exact = bool(trim_envs)
+    top = R.loop
+    while route.parents.get(top) is not cp.node and route.parents.get(top) is not None:
+        top = route.parents.get(top)
+    after_loop = set(id(x) for st_ in cp.node.body[cp.node.body.index(top) + 1:] for x in ast.walk(st_)) if top in cp.node.body else set()
+    for st, env in trim_envs:
+        ex = _SymExec(repo, cp, R.mode, strict_value, False)
+        open_ = []
+        for t, pol in conds(cp, st):
+            if isinstance(t, ast.BoolOp) and ((isinstance(t.op, ast.And) and pol is True) or (isinstance(t.op, ast.Or) and pol is False)):
+                continue
+            if ex.ev(t, env)[0] != 'b' and (id(t) in after_loop or any(is_L(x) for x in ast.walk(t))):
+                open_.append((t, pol))
+        unrelated = [(t, pol) for t, pol in open_ if not any(is_L(x) for x in ast.walk(t))]
+        if unrelated:
+            raise AnalysisError('_compile_path_pattern: cannot tell whether "%s" means that the last element of the list is empty' % cond_texts(unrelated)[0])
+        last_empty = lambda t, pol: (is_last(t) and pol is False) or \
+            (isinstance(t, ast.Compare) and len(t.ops) == 1 and is_last(t.left) and isinstance(t.comparators[0], ast.Constant) and t.comparators[0].value == '' and
+             ((isinstance(t.ops[0], ast.Eq) and pol is True) or (isinstance(t.ops[0], ast.NotEq) and pol is False)))
+        if len(open_) != 1 or not last_empty(*open_[0]):
+            exact = False
+        else:
+            t = open_[0][0]
+            held = env.get((t if is_last(t) else t.left).value.id, ('?',))
+            if held[0] != 'L' or held[2] != 0:
+                exact = False
+    ok = found[False] == {0, 1} and exact
+    rep.check('R05.g', fkey(cp, 'trailing empty element dropped outside strict mode'), ok,
+              'outside strict mode a trailing empty element is dropped (the trailing "/*" stands for it), and only then' if ok else
+              'outside strict mode the last element of the list is not dropped exactly when it is empty (joined without its last %s element(s)%s)' %
+              (' or '.join(str(k) for k in sorted(found[False])), '' if exact or not trim_envs else '; the trim is not guarded by "the last element is empty" alone'),
+              route, trims[0] if trims else cp.node)
+    # -- the duplicate test looks at every binding
+    dups = [r for r in raises_of(cp) if raise_type(r) == 'InvalidPattern' and
+            (has_cond(conds(cp, r), lambda t: isinstance(t, ast.Compare) and len(t.ops) == 1 and isinstance(t.ops[0], ast.In) and norm(t.comparators[0]) == R.vcm, True) or
+             has_cond(conds(cp, r), lambda t: isinstance(t, ast.Compare) and len(t.ops) == 1 and isinstance(t.ops[0], ast.NotIn) and norm(t.comparators[0]) == R.vcm, False))]
+    if dups:
+        extra = [(t, pol) for t, pol in loop_facts(dups[0]) if not (
+            isinstance(t, ast.BoolOp) or implies_present([(_inline(cp, t, stable=(part,)), pol)], mtext) or
+            (isinstance(t, ast.Compare) and len(t.ops) == 1 and isinstance(t.ops[0], (ast.In, ast.NotIn)) and norm(t.comparators[0]) == R.vcm))]
+        ok = not extra
+        rep.check('R05.g', fkey(cp, 'duplicate test for every binding'), ok, 'every binding name is tested against the names seen so far' if ok else
+                  'the duplicate-binding test is skipped for some bindings (also requires %s)' % ', '.join(cond_texts(extra)), route, dups[0])
+    rep.floor('R05.g', 10)
+
+
+# ---- R05.h ------------------------------------------------------------------------------------------
+
+def _rule_h_result(rep):
+    """What a match hands to the endpoint: a mapping with, for every (name, converter) of self.converters, the converter applied
+    once to the text the regex captured for the group of that name."""
+    route = rep.repo.mod(ROUTE)
+    mp = route.func('BoundRoute.match_path')
+    ps = mp.params()
+    if len(ps) < 2:
+        raise AnalysisError('match_path: expected (self, path)')
+    me, pathp = ps[0], ps[1]
+    M = '%s.regex.match(%s)' % (me, pathp)
+    CONVS = '%s.converters' % me
+
+    def group_read(e, n):
+        t = norm(_inline(mp, e, stable=(n,)))
+        return t in ('%s.groupdict()[%s]' % (M, n), '%s.groupdict().get(%s)' % (M, n), '%s.group(%s)' % (M, n), '%s[%s]' % (M, n))
+
+    def conversion(e, n, c):
+        """``e`` is  c(<group n>)  with c the converter that goes with n"""
+        if not (isinstance(e, ast.Call) and len(e.args) == 1 and not e.keywords and not isinstance(e.args[0], ast.Starred)):
+            return False
+        f = norm(_inline(mp, e.func, stable=(n,) + ((c,) if c else ())))
+        return (f == c if c else f == '%s[%s]' % (CONVS, n)) and group_read(e.args[0], n)
+
+    def iteration(target, it):
+        """(name variable, converter variable or None) when the loop / generator runs over the converters"""
+        t = norm(_inline(mp, it))
+        if t == CONVS + '.items()' and isinstance(target, (ast.Tuple, ast.List)) and len(target.elts) == 2 and all(isinstance(x, ast.Name) for x in target.elts):
+            return target.elts[0].id, target.elts[1].id
+        if t in (CONVS, CONVS + '.keys()', 'list(%s)' % CONVS, 'sorted(%s)' % CONVS) and isinstance(target, ast.Name):
+            return target.id, None
+        return None
+    built = []      # (node, ok, how)
+    for node in walk_body(mp.node):
+        pair = None
+        if isinstance(node, ast.DictComp):
+            gens, pair = node.generators, (node.key, node.value)
+        elif isinstance(node, ast.Call) and isinstance(node.func, ast.Name) and node.func.id == 'dict' and len(node.args) == 1 and not node.keywords and \
+                isinstance(node.args[0], (ast.ListComp, ast.GeneratorExp)) and isinstance(node.args[0].elt, (ast.Tuple, ast.List)) and len(node.args[0].elt.elts) == 2:
+            gens, pair = node.args[0].generators, tuple(node.args[0].elt.elts)
+        if pair is not None:
+            it = iteration(gens[0].target, gens[0].iter) if len(gens) == 1 and not gens[0].ifs and not gens[0].is_async else None
+            if it is None and not any(CONVS in norm(_inline(mp, g.iter)) for g in gens):
+                continue
+            ok = it is not None and isinstance(pair[0], ast.Name) and pair[0].id == it[0] and conversion(pair[1], it[0], it[1])
+            built.append((node, ok, 'comprehension'))
+        elif isinstance(node, (ast.For, ast.AsyncFor)) and CONVS in norm(_inline(mp, node.iter)):
+            it = iteration(node.target, node.iter)
+            stores = [s for s in stmts_of(node) if isinstance(s, (ast.Assign, ast.AugAssign)) and
+                      any(isinstance(t, ast.Subscript) for t in (s.targets if isinstance(s, ast.Assign) else [s.target]))]
+            ok = it is not None and len(stores) == 1 and isinstance(stores[0], ast.Assign) and len(stores[0].targets) == 1 and stores[0] in node.body and \
+                not node.orelse and all(isinstance(b, (ast.Assign, ast.Expr)) for b in node.body)
+            D = None
+            if ok:
+                tgt = stores[0].targets[0]
+                D = tgt.value.id if isinstance(tgt.value, ast.Name) else None
+                d0 = _single_def(mp, D) if D else None
+                ok = D is not None and isinstance(tgt.slice, ast.Name) and tgt.slice.id == it[0] and conversion(stores[0].value, it[0], it[1]) and \
+                    d0 is not None and _is_empty_display(d0, 'dict') and len(_item_stores(mp, D)) == 1 and \
+                    not any(isinstance(c_, ast.Call) and isinstance(c_.func, ast.Attribute) and norm(c_.func.value) == D and c_.func.attr in _MUTATORS for c_ in walk_body(mp.node)) and \
+                    all(_stores(mp.node, v) == 1 for v in it if v)
+            built.append((node, ok, D))
+    if len(built) != 1:
+        raise AnalysisError('match_path: the mapping of converted values was not found (%d candidates)' % len(built))
+    node, ok, how = built[0]
+    rep.check('R05.h', fkey(mp, 'every binding converted under its own name'), ok,
+              'result[name] = converter(captured text of group name), for every (name, converter) of self.converters' if ok else
+              'match_path does not map every binding name to its converter applied (once) to the text captured for that name', route, node)
+    # ... and that mapping is what a match returns
+    rets = [r for r in returns_of(mp) if not (r.value is None or (isinstance(r.value, ast.Constant) and r.value.value is None))]
+    if isinstance(node, (ast.For, ast.AsyncFor)):
+        good = [r for r in rets if isinstance(r.value, ast.Name) and r.value.id == how]
+    else:
+        good = [r for r in rets if r.value is node or (isinstance(r.value, ast.Name) and _single_def(mp, r.value.id) is node)]
+    mcfg = cfg_of(mp)
+    ok = len(rets) == 1 and len(good) == 1 and (not isinstance(node, (ast.For, ast.AsyncFor)) or
+                                                mcfg.must_pass(mcfg.nodes_of(node), mcfg.entry, mcfg.nodes_of(good[0])))
+    rep.check('R05.h', fkey(mp, 'a match returns the converted values'), ok, 'the mapping of converted values is what a match returns' if ok else
+              'match_path returns something else than the mapping of converted values (%s)' % ', '.join(short(r, 40) for r in rets), route, rets[0] if rets else mp.node)
+    rep.floor('R05.h', 2)
+
+
 # ---- R05.f ------------------------------------------------------------------------------------------
 
 def _rule_f(rep, pats, seg):
@@ -1573,6 +1921,8 @@ def run(rep):
     rep.rule('R05.d', "'^'...'$', separators per mode, handlers in match_path")
     rep.rule('R05.e', 'build_converter branches')
     rep.rule('R05.f', 'language equality of the instantiated segment template with an independent specification')
+    rep.rule('R05.g', 'construction of the joined list: fresh per call, one element per literal part, binding segments glued, trailing trim per mode')
+    rep.rule('R05.h', 'match_path: result[name] = converter(group name) for every converter; that mapping is returned')
     rep.repo.mod(ROUTE)          # anchor module: its absence is an analysis error of the whole property
 
     tt = _guarded(rep, _type_tables, rep)
@@ -1594,3 +1944,6 @@ def run(rep):
         rep.floor('R05.e', 8)
     if pats is not None and tabs is not None:
         _guarded(rep, _rule_f, rep, pats, tabs[2])
+    if R is not None:
+        _guarded(rep, _rule_g_segments, rep, R)
+    _guarded(rep, _rule_h_result, rep)
